@@ -11,17 +11,17 @@ pub struct ExBTreeIntoIter<K, V, A: core::alloc::Allocator + Clone>(std::collect
 // X7 call shim for `map.into_iter()` (an assume_specification on the trait method does not
 // connect the returned iterator's `remaining` with the caller's, so the call goes through
 // this function, whose body is the same expression)
+// "the sequence s enumerates the map m": every pair is an entry, every entry occurs, no key twice
+pub open spec fn btree_covers<K, V>(s: Seq<(K, V)>, m: Map<K, V>) -> bool {
+    &&& forall|i: int| 0 <= i < s.len() ==> m.contains_key(#[trigger] s[i].0) && m[s[i].0] == s[i].1
+    &&& forall|k: K| m.contains_key(k) ==> exists|i: int| 0 <= i < s.len() && #[trigger] s[i].0 == k
+    &&& forall|i: int, j: int| 0 <= i < j < s.len() ==> s[i].0 != s[j].0
+}
 #[verifier::external_body]
 pub fn vx_btree_into_iter<K, V>(m: std::collections::BTreeMap<K, V>) -> (r: std::collections::btree_map::IntoIter<K, V>)
     ensures
         // every yielded pair is an entry of the map, every entry is yielded, keys are not repeated
-        forall|i: int| 0 <= i < vstd::std_specs::iter::IteratorSpec::remaining(&r).len() ==>
-            m@.contains_key(#[trigger] vstd::std_specs::iter::IteratorSpec::remaining(&r)[i].0)
-            && m@[vstd::std_specs::iter::IteratorSpec::remaining(&r)[i].0] == vstd::std_specs::iter::IteratorSpec::remaining(&r)[i].1,
-        forall|k: K| m@.contains_key(k) ==> exists|i: int| 0 <= i < vstd::std_specs::iter::IteratorSpec::remaining(&r).len()
-            && #[trigger] vstd::std_specs::iter::IteratorSpec::remaining(&r)[i].0 == k,
-        forall|i: int, j: int| 0 <= i < j < vstd::std_specs::iter::IteratorSpec::remaining(&r).len() ==>
-            vstd::std_specs::iter::IteratorSpec::remaining(&r)[i].0 != vstd::std_specs::iter::IteratorSpec::remaining(&r)[j].0,
+        btree_covers(vstd::std_specs::iter::IteratorSpec::remaining(&r), m@),
 {
     m.into_iter()
 }
